@@ -7,7 +7,7 @@ from vf.runner import Acc, filler
 PROPERTY = "C05"
 CONCUR_FILES = ('bits/tx.py', 'bits/utils.py', 'bits/script/utils.py')
 # (thread a, thread b), warm-up: indices into seq_ops() - the ordinary single-case checks run concurrently (vf/concur.py)
-CONCUR_SCEN = [((0, 1), ()), ((1, 1), (0,)), ((0, 3), (6,)), ((6, 7), (8,))]
+CONCUR_SCEN = [((0, 1), ()), ((1, 1), (0,)), ((0, 3), (6,)), ((6, 7), (8,)), ((0, 1, 3), ())]   # the last one: three threads
 LEVEL = "exploration"
 RULE = ("transactions generated from a grammar with the reference serialiser: dimensions segwit, n_in/n_out in "
         "{1,2,3,252,253,300}, scriptSig/scriptPubKey lengths in {0,1,75,76,252,253,255,256,65535,65536}, witness stacks of "
@@ -201,7 +201,7 @@ def jobs(tier, seed):
     from vf.runner import seq_jobs
     js += seq_jobs(3, weight=3)
     from vf.runner import concur_jobs
-    js += concur_jobs(len(CONCUR_SCEN))
+    js += concur_jobs(len(CONCUR_SCEN) - (1 if tier == "quick" else 0))
     return js
 
 
@@ -213,7 +213,7 @@ def run_job(job):
         return run_concur_job(job, scens, run_case, PROPERTY, CONCUR_FILES)
     if job["part"] == "seq":
         from vf.runner import run_seq_job
-        return run_seq_job(job, seq_ops(job), run_case)
+        return run_seq_job(job, seq_ops(job), run_case, depth=3 if job["tier"] == "quick" else 4)
     acc = Acc(job)
     seed = job["seed"]
     if job["part"] == "tx":
